@@ -173,7 +173,15 @@ SPlan GenerateSPlan(uint64_t seed, int max_tasks, bool canary) {
         std::vector<const std::vector<uint8_t> *> none;
         op.faults = RandomFaultPlan(ro.Fork("f"), 300, none);
       }
-      if (op.kind <= 1 && ro.Fork("slow").Chance(1, 4)) {
+      if (op.kind == 0 && ro.Fork("nopos").Chance(1, 8)) {
+        // A call that is correctly rejected (a mesh without POSITION): failing
+        // calls run concurrently with succeeding ones, too.
+        op.w = GenerateWorkload(ro.Fork("w3"), 0, 0);
+        op.w.atts[0].type = draco::GeometryAttribute::GENERIC;
+        op.w.method = 1;
+        op.w.espeed = op.w.dspeed = static_cast<int>(ro.Fork("s3").Below(6));
+        op.w.expert = 0;
+      } else if (op.kind <= 1 && ro.Fork("slow").Chance(1, 4)) {
         // The slowest, most thorough encoder configuration on a mesh that is
         // large enough for every prediction scheme to engage.
         op.w = GenerateWorkload(ro.Fork("w2"), 1, 0);
